@@ -281,6 +281,26 @@ func c02Excluded(tc l4Case, f *syntax.File, sh *shape) string {
 			}
 		}
 	}
+	// C02-semi-far-continuation: a `;`/`&` two or more lines below the end of its command (escaped
+	// newlines in between): the printer moves it one continuation line down only, its line counter
+	// stays behind the source, and a closing `}`/`)` on the terminator's source line is then
+	// judged to be on a later line; the second pass sees the closer right below and moves the
+	// statement to a line of its own.
+	if !o.Single && !o.Minify && sh.any(func(n syntax.Node) bool {
+		st, ok := n.(*syntax.Stmt)
+		if !ok || !st.Semicolon.IsValid() || st.Cmd == nil {
+			return false
+		}
+		end := st.Cmd.End().Line()
+		for _, r := range st.Redirs {
+			if l := r.End().Line(); l > end {
+				end = l
+			}
+		}
+		return st.Semicolon.Line() > end+1
+	}) {
+		return "C02-semi-far-continuation"
+	}
 	// C02-subshell-trailing-blank: `( (a)` NEWLINE `)` — the inner command starts with a parenthesis
 	// on the line of the outer `(`, so a blank is written, and then the closing parenthesis on a
 	// later line forces a newline right after it: `( ` NEWLINE.  The second pass sees the inner
